@@ -16,6 +16,8 @@ kani_unit("f64", "winter-math", F64, "kani/math_f64.rs", "field::f64", [
       "Ok(e) iff v < M, then as_int(e) == v and e canonical"),
     H("f64_try_from_slice_contract", ["C07", "C19"], ["f64::TryFrom<&[u8]>", "f64::Randomizable::from_random_bytes"],
       "Ok/Some iff len == 8 and le(bytes) < M; element canonical and denotes le(bytes)"),
+    H("f64_ext_from_random_bytes_contract", ["C19", "C08"], ["QuadExtension<f64>::from_random_bytes", "CubeExtension<f64>::from_random_bytes", "TryFrom<&[u8]> for the extensions"],
+      "forall byte strings up to 26 bytes: Some exactly when the length is the element size (16 / 24) and every 8-byte coordinate is a canonical word; the decoded coordinates are canonical"),
     H("f64_into_ints_contract", ["C07"], ["f64::From<BaseElement> for u64|u128", "f64::TryFrom<BaseElement> for u8|u16|u32|bool"],
       "conversion returns as_int when it fits, Err otherwise"),
     H("f64_add_contract", ["C07"], ["f64::Add::add", "f64::AddAssign"],
